@@ -173,7 +173,12 @@ func cmdRun(args []string) {
 	fmt.Printf("loaded in %v (skipped %v)\n", time.Since(t0), skipped)
 	ex := &Explorer{prog: prog, pkg: pkg, harness: *harness, params: params, workers: *workers,
 		solver: *solver, timeoutMs: *timeout, maxPaths: *maxPaths, unwind: *unwind, maxSteps: 200_000_000,
-		witnessN: *witness, solverLog: *slog}
+		witnessN: *witness, solverLog: *slog, openKF: map[string]KnownFinding{}}
+	for _, kf := range loadKnownFindings() {
+		if kf.State == "open" {
+			ex.openKF[kf.Tag] = kf
+		}
+	}
 	st := ex.Run()
 	printStats(st)
 	if *jsonOut != "" {
@@ -201,6 +206,6 @@ func printStats(st *RunStats) {
 	}
 	for _, v := range st.Violations {
 		b, _ := json.Marshal(v.Vector)
-		fmt.Printf("VIOLATION-CANDIDATE kind=%s id=%s vector=%s\n", v.Kind, v.ID, b)
+		fmt.Printf("VIOLATION-CANDIDATE kind=%s tag=%s id=%s vector=%s\n", v.Kind, v.Tag, v.ID, b)
 	}
 }
